@@ -88,12 +88,8 @@ Proof.
   eapply Forall_map_opt; [exact Em| |exact HT].
   intros c c' Hsc Hc. cbv beta in *.
   assert (Hb : cBpp c' = cBpp c).
-  { revert Hsc. unfold sched_copy_client. destruct c; csimpl.
-    destruct cUseCopy; [|intros Hs; inversion Hs; subst; reflexivity].
-    destruct (negb (rgn_is_empty cC)); [destruct (negb (cDX =? dx) || negb (cDY =? dy))|];
-      (destruct cShape; [intros Hs; inversion Hs; subst; reflexivity|]);
-      destruct (sCursor st) as [[[[xh yh] cw] ch]|];
-      intros Hs; inversion Hs; subst; reflexivity. }
+  { assert (S0 : SizeOK (cPW c) (cPH c) c) by (left; split; reflexivity).
+    exact (proj2 (sched_copy_size _ _ _ _ _ _ _ _ Hsc S0)). }
   rewrite Hb. exact Hc.
 Qed.
 
@@ -152,9 +148,9 @@ Proof.
                    | Some _ => map (fun c => if cShape c then c else redraw_cursor_M st c) (sClients st)
                    | None => sClients st end)).
     { destruct (sCursor st); [|exact HT]. apply transok_map; [|exact HT].
-      intros c. destruct (cShape c); [reflexivity|destruct c; reflexivity]. }
-    eapply Forall_impl; [|exact H1]. intros c Hc. unfold TR in *.
-    match goal with |- tFrom (cBpp (if ?b then ?x else ?y)) = _ => destruct b end; destruct c; exact Hc.
+      intros c0. destruct (cShape c0); [reflexivity|destruct c0; reflexivity]. }
+    eapply Forall_impl; [|exact H1]. intros c0 Hc. unfold TR in *.
+    match goal with |- tFrom (cBpp (if ?b then ?x else ?y)) = _ => destruct b end; destruct c0; exact Hc.
   - (* Knobs *)
     inversion Hs; subst. unfold TransOK. destruct st; exact HT.
   - (* Tick *)
@@ -174,7 +170,7 @@ Proof.
     destruct (c <? length (sClients st))%nat; [|discriminate].
     destruct (nscreens =? 0); inversion Hs; subst; [exact HT|].
     unfold TransOK. rewrite sclients_set_clients, sbpp_set_clients.
-    clear Hs Hcl HI. revert c. unfold TransOK in HT. induction HT as [|a l Ha Hl IH]; intros n; [constructor|].
+    clear Hs Hcl HI. revert c. unfold TransOK in HT. induction HT as [|a l Ha Hl IH]; intros n; [destruct n; constructor|].
     destruct n; cbn [setdesktop_clients_at].
     + constructor; [unfold TR; rewrite setdesktop_one_bpp; exact Ha|].
       apply Forall_map. eapply Forall_impl; [|exact Hl]. intros a0 Ha0. unfold TR. rewrite setdesktop_one_bpp. exact Ha0.
